@@ -1,6 +1,6 @@
 """C08 — incremental equals one-shot: the forwarding clause (FWD)."""
 from ..core import operand_locals
-from ..expr import expr_of_operand, call_arg_exprs
+from ..expr import expr_of_operand, call_arg_exprs, deep_repr
 from . import common as cm
 
 INNER_EXTERNAL = ("sha2::Digest::update", "digest::Digest::update", "digest::Update::update")
@@ -194,6 +194,7 @@ def check(ctx, rep, cfg):
         rep.ob("ONE-SHOT", name + tag, ok, why, loc=ofs[0].loc())
     rep.floor("one-shot functions" + tag, m, 9)
     hmac(rep, prog, tag)
+    init_lengths(rep, prog, tag)
     buffer_invariants(rep, prog, tag)
 
 
@@ -291,6 +292,34 @@ def _one_shot_at(prog, f, c, inner, ai, p, inner_inc):
         return False, "update is conditional"
     return True, "%s → update(whole `%s`) → %s via the same inner update as the incremental API" % (
         inits[0].name, f.local_name(root), fins[0].name)
+
+
+def init_lengths(rep, prog, tag):
+    """INIT-LEN: an incremental hasher object whose digest length is a const parameter of its type
+    (`GenericHash<KEY_LENGTH, OUTPUT_LENGTH>`) initialises the BLAKE2b state with *that* parameter: the
+    digest length is part of the parameter block, so initialising with another length and emitting
+    OUTPUT_LENGTH bytes is not BLAKE2b-OUTPUT_LENGTH (and differs from the one-shot result)."""
+    from ..inline import inline
+    n = 0
+    for imp in prog.impls:
+        gens = imp.get("generics", [])
+        st = imp["self_ty"]["t"]
+        if not st.startswith("generichash::GenericHash<") or "OUTPUT_LENGTH" not in gens or imp.get("trait"):
+            continue
+        for it in imp["items"]:
+            f0 = prog.by_key.get(it["key"])
+            if f0 is None or f0.kind == "closure":
+                continue
+            f = inline(prog, f0)
+            for c in f.calls():
+                if not c.rpath.endswith("crypto_generichash::crypto_generichash_init") or len(c.args) < 2:
+                    continue
+                n += 1
+                e = call_arg_exprs(c)[1]
+                ok = e.k == "const" and e.a is None and str(e.b) == "OUTPUT_LENGTH"
+                rep.ob("INIT-LEN", "%s|digest length = OUTPUT_LENGTH%s" % (f0.path, tag), ok,
+                       "the incremental state is initialised with digest length %s" % (deep_repr(e)[:60]), loc=c.loc())
+    rep.floor("GenericHash incremental constructors" + tag, n, 1)
 
 
 def hmac(rep, prog, tag):
@@ -449,7 +478,47 @@ def buffer_invariants(rep, prog, tag):
         if kind == "blake":
             rep.ob("BUFINV", "%s|non-empty input never leaves %s empty%s" % (f.path, fld, tag), not bad2 and bool(exits),
                    "the last block is held back for finalisation" if not bad2 else "buffer may be empty at exit after absorbing input: %s" % bad2[:3], loc=f.loc())
-        if it.notes:
+        # COVER: the sub-views of `input` handed on (to the pending buffer, to the block routine, to a
+        # chunk iterator) partition the input: consecutive, no byte twice, none left out
+        in_loop = []
+        for c_ in f.calls():
+            if c_.name in absint.PURE_VIEW_NAMES or c_.path in absint.INDEX or f.blocks[c_.bb]["cleanup"]:
+                continue
+            for a_ in c_.args:
+                ls_ = list(operand_locals(a_))
+                if ls_ and f.locals[ls_[0]]["t"].replace("'_ ", "").startswith("&") and "[u8" in f.locals[ls_[0]]["t"] and \
+                        cm.view_info(f, ls_[0])[0] == 2 and c_.bb in f.reachable_from_after(c_.bb):
+                    in_loop.append(c_.loc())
+        if in_loop:
+            # input handed on piece by piece inside a hand-written loop: the interval bookkeeping of the
+            # interpreter does not follow loop-carried offsets; this clause is not decided for this shape
+            rep.note("COVER %s: input sub-views are handed on inside a loop (%s): not decided" % (f.path, in_loop[:2]))
+            if it.notes:
+                rep.note("BUFINV %s: %s" % (f.path, sorted(set(it.notes))[:3]))
+            continue_cover = False
+        else:
+            continue_cover = True
+        it3 = absint.Interp(prog, f, [fld], lambda st: [L.ge(L.lin_const(bound), st.vec[fld])])
+        it3.track_input = 2
+        ex3 = it3.run() if continue_cover else []
+        gaps = []
+        n_cons = 0
+        for b, st in ex3:
+            pos = L.lin_const(0)
+            for (start, ln, what, cb) in st.consumed:
+                n_cons += 1
+                if not absint.entails_int(st.cons, L.eq(start, pos)):
+                    gaps.append("%s at %s takes input[%s..] after %s bytes were taken" % (what, f.loc(cb), L.lin_repr(start), L.lin_repr(pos)))
+                    break
+                pos = L.lin_add(start, ln)
+            else:
+                if not absint.entails_int(st.cons, L.eq(pos, inp)):
+                    gaps.append("an exit at %s is reached with %s of %s input bytes handed on" % (f.loc(b), L.lin_repr(pos), L.lin_repr(inp)))
+        if continue_cover:
+          rep.ob("COVER", "%s|input absorbed exactly once, in order%s" % (f.path, tag), bool(ex3) and n_cons >= 1 and not gaps,
+                 "%d abstract exit state(s), %d hand-over(s) of input sub-views, consecutive and complete" % (len(ex3), n_cons) if not gaps else gaps[0],
+                 loc=f.loc())
+        if it.notes and continue_cover:
             rep.note("BUFINV %s: %s" % (f.path, sorted(set(it.notes))[:3]))
         # finalize side (Poly1305): the partial-block call receives exactly one block
         if kind == "poly":
